@@ -311,6 +311,8 @@ theorem C26_password_required (x : Ctx) (nfc : Bytes → Bytes) (fu : Nat) (c : 
 
 /-! ### non-vacuity -/
 
+example : Tree wFS := invB_sound (by decide)
+
 /-- "/d" itself: allowed, no symbolic link on it; listing it touches exactly /d. -/
 example : (runOp wCtx (fun b => b) 40 wCfg wFS .list [0x2f, 0x64]).touched = [[356]] := by decide
 example : validatePath (fun b => b) wCfg [0x2f, 0x64, 0x2f, 0x6c, 0x2f, 0x6b] = .ok := by decide
